@@ -79,6 +79,19 @@ pub proof fn lemma_fix_char_idempotent(c: char)
 	}
 }
 
+// string level (the property speaks of strings): with to_normalized's contract `res@ == self.0@.map_values(fix_char_spec)`,
+// normalising an already normalised string changes nothing and the number of characters is kept.
+pub proof fn lemma_fix_char_idempotent_on_strings(s: Seq<char>)
+	ensures
+		s.map_values(|c: char| fix_char_spec(c)).map_values(|c: char| fix_char_spec(c)) == s.map_values(|c: char| fix_char_spec(c)) /*[C19.normalise_idempotent_on_strings]*/,
+		s.map_values(|c: char| fix_char_spec(c)).len() == s.len() /*[C19.normalise_keeps_char_count]*/,
+{
+	let a = s.map_values(|c: char| fix_char_spec(c));
+	let b = a.map_values(|c: char| fix_char_spec(c));
+	assert forall|i: int| 0 <= i < s.len() implies b[i] == a[i] by { lemma_fix_char_idempotent(s[i]); }
+	assert(b =~= a);
+}
+
 // ---------------- game types ----------------
 pub struct TryFromPrimitiveError<T> { pub p: core::marker::PhantomData<T> }
 impl<T> std::fmt::Debug for TryFromPrimitiveError<T> { #[verifier::external_body] fn fmt(&self, f: &mut std::fmt::Formatter<'_>) -> std::fmt::Result { unimplemented!() } }
